@@ -120,7 +120,7 @@ func (s *State) Exec(cur string, st *Stmt) error {
 		}
 		c := t.clone()
 		c.Name = n2
-		c.seal()
+		c.seal(db2)
 		delete(s.DBs[db], n)
 		s.DBs[db2][n2] = c
 		return nil
@@ -132,7 +132,14 @@ func (s *State) Exec(cur string, st *Stmt) error {
 	return unknown("Exec of statement kind %s", st.Kind)
 }
 
-func (t *Table) seal() *Table { t.canon = ""; t.canon = t.schemaCanon(); return t }
+// seal finishes a (new or mutated, still private) table before it is published in a state: canonical text and digest.
+func (t *Table) seal(db string) *Table {
+	t.db = db
+	t.canon = ""
+	t.canon = t.schemaCanon()
+	t.digest()
+	return t
+}
 
 func (s *State) createTable(cur string, st *Stmt) error {
 	db, n, err := s.resolve(cur, st.Name)
@@ -201,7 +208,7 @@ func (s *State) createTable(cur string, st *Stmt) error {
 	if err := checkTTL(t, t.TTL); err != nil {
 		return err
 	}
-	s.DBs[db][n] = t.seal()
+	s.DBs[db][n] = t.seal(db)
 	return nil
 }
 
@@ -299,7 +306,7 @@ func (s *State) createView(cur string, st *Stmt) error {
 		t.To = tn
 		// ClickHouse does not require the target table to exist at creation time.
 	}
-	s.DBs[db][n] = t.seal()
+	s.DBs[db][n] = t.seal(db)
 	return nil
 }
 
@@ -394,7 +401,7 @@ func (s *State) alter(cur string, st *Stmt) error {
 		}
 		t.OrderBy = append([]string(nil), newKey...)
 	}
-	s.DBs[db][n] = t.seal()
+	s.DBs[db][n] = t.seal(db)
 	return nil
 }
 
@@ -472,6 +479,7 @@ func (s *State) insert(cur string, st *Stmt) error {
 	m.Rows = append(m.Rows, row)
 	m.Rows = m.collapsedRows()
 	m.canon = target.canon // rows are not part of the schema text
+	m.digest()
 	return nil
 }
 
